@@ -346,6 +346,9 @@ func runC07(c *Ctx) {
 	c07WriterCoverage(c, pk, nodeIface)
 	c07Comparators(c, pk)
 	c07PreSortRead(c, pk)
+	c07ScopedFlagRestored(c)
+	c07CompactOnlyScalars(c)
+	ruleOpenTruncates(c, "OPEN-TRUNCATES")
 
 	// ---- (5) STABLE-SORT
 	for _, fr := range p.FuncsOf(pk) {
